@@ -149,3 +149,64 @@ Theorem C09_shared_key_refuted :
   exists c, In c (eligible_list s 1%N) /\ credit_op c = (1, 0)%N.
 Proof. exact flag_lost_shared_key_refuted. Qed.
 Print Assumptions C09_shared_key_refuted.
+
+(* ---- the statements are not vacuous: a concrete history *)
+Module Ex.
+  Definition p : params := {| p_cbmat := 1; p_bindlock := 4294967294 |}.
+  Definition g : block := {| b_id := 0; b_prev := 0; b_height := 0; b_txs := [] |}.
+  Definition cb (id : N) : tx := {| t_id := id; t_cb := true; t_ins := []; t_outs := [ {| o_sh := 1; o_val := 5; o_class := CStd |} ] |}.
+  Definition b1 : block := {| b_id := 1; b_prev := 0; b_height := 1; b_txs := [cb 1] |}.
+  Definition b2 : block := {| b_id := 2; b_prev := 1; b_height := 2; b_txs := [cb 2] |}.
+  (* t10 spends the wallet coin (1,0) and pays the wallet a staking deposit and a stranger *)
+  Definition t10 : tx := {| t_id := 10; t_cb := false; t_ins := [(1, 0)%N];
+                            t_outs := [ {| o_sh := 1; o_val := 3; o_class := CStaking 2 |}; {| o_sh := 9; o_val := 2; o_class := CStd |} ] |}.
+  (* t11 double-spends (1,0) *)
+  Definition t11 : tx := {| t_id := 11; t_cb := false; t_ins := [(1, 0)%N]; t_outs := [ {| o_sh := 9; o_val := 5; o_class := CStd |} ] |}.
+  Definition b3 : block := {| b_id := 3; b_prev := 2; b_height := 3; b_txs := [cb 3; t10] |}.
+  Definition b3' : block := {| b_id := 4; b_prev := 2; b_height := 3; b_txs := [cb 4; t11] |}.
+  Definition pre : list pevent := [PvOwner 1 1; PvAttach b1; PvProcess b1; PvAttach b2; PvProcess b2; PvReceive t10].
+  Definition st (evs : list pevent) : pstate := h_store (q_h (prun p true g evs)).
+End Ex.
+
+(* received: flagged, not eligible, readable, a pending staking row, balances unchanged *)
+Example C09_example_pending :
+  let s := Ex.st Ex.pre in
+  read_unmined s 10%N = RdOk Ex.t10 /\ spent_by_unmined s (1, 0)%N = true /\
+  map credit_op (eligible_list s 1%N) = [(2, 0)%N] /\ guard s /\
+  map (fun r => (hr_tx r, hr_vout r, hr_amount r, hr_frozen r, hr_pending r)) (game_history (q_node (prun Ex.p true Ex.g Ex.pre)) s 1%N false false)
+    = [(10%N, 0%N, 3, 2, true)] /\
+  gross_balance (ps_w s) 1%N = 10.
+Proof.
+  cbv zeta. split; [vm_compute; reflexivity|]. split; [vm_compute; reflexivity|]. split; [vm_compute; reflexivity|].
+  split; [|split; vm_compute; reflexivity].
+  apply (guard_one _ 10%N Ex.t10); [vm_compute; reflexivity|].
+  intros o sp Hin.
+  assert (E : ps_uinputs (Ex.st Ex.pre) = [((1, 0)%N, [10%N])]) by (vm_compute; reflexivity).
+  rewrite E in Hin. unfold ui_get in Hin. cbn [find fst snd] in Hin.
+  destruct (op_eqb (1, 0)%N o) eqn:Eo; [|destruct Hin].
+  apply op_eqb_eq in Eo. subst o. destruct Hin as [<-|[]]. split; [reflexivity|left; reflexivity].
+Qed.
+
+(* mined: an ordinary ledger entry, no longer pending, the deposit row is a mined one *)
+Example C09_example_settled :
+  let s := Ex.st (Ex.pre ++ [PvAttach Ex.b3; PvProcess Ex.b3]) in
+  read_unmined s 10%N = RdNone /\ ps_ucredits s = [] /\ ps_uinputs s = [] /\ ps_ugame s = [] /\
+  map (fun r => (g_tx r, g_vout r, g_height r, g_withdrawn r)) (ps_game s) = [(10%N, 0%N, 3, false)] /\
+  gross_balance (ps_w s) 1%N = 13.
+Proof. vm_compute. repeat split; reflexivity. Qed.
+
+(* the conflicting transaction confirms instead: the pending transaction vanishes, the coin it held is gone
+   with the conflict (spent on the chain), nothing of it remains in any pending bucket *)
+Example C09_example_conflict :
+  let s := Ex.st (Ex.pre ++ [PvAttach Ex.b3'; PvProcess Ex.b3']) in
+  read_unmined s 10%N = RdNone /\ ps_ucredits s = [] /\ ps_uinputs s = [] /\ ps_ugame s = [] /\ ps_game s = [] /\
+  gross_balance (ps_w s) 1%N = 10.
+Proof. vm_compute. repeat split; reflexivity. Qed.
+
+(* mined, then reorganised away: pending again, readable, flagged again *)
+Example C09_example_rollback :
+  let s := Ex.st (Ex.pre ++ [PvAttach Ex.b3; PvProcess Ex.b3; PvDetach; PvAttach {| b_id := 5; b_prev := 2; b_height := 3; b_txs := [Ex.cb 6] |};
+                             PvProcess {| b_id := 5; b_prev := 2; b_height := 3; b_txs := [Ex.cb 6] |}]) in
+  read_unmined s 10%N = RdOk Ex.t10 /\ spent_by_unmined s (1, 0)%N = true /\ ps_game s = [] /\
+  map (fun r => (ug_tx r, ug_vout r)) (ps_ugame s) = [(10%N, 0%N)].
+Proof. vm_compute. repeat split; reflexivity. Qed.
